@@ -73,7 +73,9 @@ func QUICID2Spec(id QUICID) (QUICSpec, error) {
 				InitPacketNumber:       1, // Chrome is special that it starts with 1 not 0
 				ClientTokenLength:      0,
 				FrameBuilder: &QUICRandomFrames{ // Chrome randomly inserts padding frames
-					MinPING:    0,
+					// at least one PING: the recorded fingerprint (which hashes the set of
+					// frame types) was taken from a flight that contains PING frames
+					MinPING:    1,
 					MaxPING:    10,
 					MinCRYPTO:  1,
 					MaxCRYPTO:  10,
@@ -190,7 +192,9 @@ func QUICID2Spec(id QUICID) (QUICSpec, error) {
 				InitPacketNumber:       1, // Chrome is special that it starts with 1 not 0
 				ClientTokenLength:      0,
 				FrameBuilder: &QUICRandomFrames{ // Chrome randomly inserts padding frames
-					MinPING:    0,
+					// at least one PING: the recorded fingerprint (which hashes the set of
+					// frame types) was taken from a flight that contains PING frames
+					MinPING:    1,
 					MaxPING:    10,
 					MinCRYPTO:  1,
 					MaxCRYPTO:  10,
